@@ -328,6 +328,43 @@ func c03Case(t *core.T, calls int) {
 				}
 				c03CheckSigned(t, wd, k, tx, out, flag, prevs, fail)
 				t.Count("signed_ok", 1)
+				// the signed result handed back to the signing call (a client that signs twice, or edits a
+				// signed draft): a transaction that already carries witnesses is a transaction like any other
+				if signedTx, derr := decodeTxBytes(out); derr == nil && !t.Failed() && t.R.Chance(60) {
+					// (A) any other passphrase is still refused and returns nothing
+					wp := wrongs[t.R.Intn(len(wrongs))]
+					t.Eval(1)
+					if o2, err := wd.W.W.SignRawTx([]byte(wp), flag, cloneTx(signedTx)); err == nil || o2 != nil {
+						fail("wrong-passphrase-accepted:presigned", fmt.Sprintf("SignRawTx of an already signed transaction with passphrase %q (right one differs) returned %d bytes, err=%v", wp, len(o2), err))
+					} else if err != keystore.ErrInvalidPassphrase && err != keystore.ErrIllegalPassphrase {
+						fail("wrong-passphrase-other-error", fmt.Sprintf("SignRawTx of an already signed transaction with a wrong passphrase failed with %q, not a passphrase error", err))
+					}
+					// (B) signing it again with another flag gives valid witnesses of THAT flag
+					flag2 := flag
+					if nIn <= nOut {
+						flag2 = []string{"ALL", "NONE", "SINGLE", "ALL|ANYONECANPAY", "NONE|ANYONECANPAY", "SINGLE|ANYONECANPAY"}[t.R.Intn(6)]
+					} else {
+						flag2 = []string{"ALL", "NONE", "ALL|ANYONECANPAY", "NONE|ANYONECANPAY"}[t.R.Intn(4)]
+					}
+					t.Eval(1)
+					if o3, err := wd.W.W.SignRawTx([]byte(k.Pass), flag2, cloneTx(signedTx)); err != nil {
+						fail("right-passphrase-refused:presigned", fmt.Sprintf("SignRawTx(%s) of an already signed transaction with the right passphrase failed: %v", flag2, err))
+					} else {
+						c03CheckSigned(t, wd, k, signedTx, o3, flag2, prevs, fail)
+					}
+					// (C) a signed draft whose output was edited: the stale witnesses must be replaced
+					if flag == "ALL" && len(signedTx.TxOut) > 0 && signedTx.TxOut[0].Value > 1 && !t.Failed() {
+						edited := cloneTx(signedTx)
+						edited.TxOut[0].Value--
+						t.Eval(1)
+						if o4, err := wd.W.W.SignRawTx([]byte(k.Pass), flag, cloneTx(edited)); err != nil {
+							fail("right-passphrase-refused:stale-witness", fmt.Sprintf("SignRawTx of a signed transaction whose output was edited afterwards failed: %v", err))
+						} else {
+							c03CheckSigned(t, wd, k, edited, o4, flag, prevs, fail)
+						}
+					}
+					t.Count("presigned_transactions_signed_again", 1)
+				}
 				t.Count("inputs_verified", nIn)
 				if nIn >= 2 && len(addrs) >= 2 || flag != "ALL" || classes[sim.ClassStaking] || classes[sim.ClassBinding] {
 					var cl []string
@@ -360,4 +397,12 @@ func init() {
 		Cases:       func(tier string, seed int64) int { return plans[tier].cases },
 		Run:         func(t *core.T) { c03Case(t, plans[t.Tier].calls) },
 	})
+}
+
+func decodeTxBytes(b []byte) (*wire.MsgTx, error) {
+	tx := wire.NewMsgTx()
+	if err := tx.SetBytes(b, wire.Packet); err != nil {
+		return nil, err
+	}
+	return tx, nil
 }
